@@ -49,7 +49,7 @@ Print Assumptions C01_std_electricity.
 Theorem C01_std_heat : forall c : lc_in, l_econ c = 2%Z -> classify (l_enduse c) (l_plant c) = LHeat ->
   lcoe_spec c = (0, ((1 + l_inflc c) * l_ccap c
                      + geo0 (/ (1 + l_disc c)) (map (Qplus (l_coam c)) (map (Qmult (l_elec_buy c / e6)) (l_pump c))))
-                    / geo0 (/ (1 + l_disc c)) (l_heat c) * e8 * mmbtu, 0).
+                    / geo0 (/ (1 + l_disc c)) (l_heat c) * (e8 * mmbtu), 0).
 Proof. exact spec_std_heat. Qed.
 Print Assumptions C01_std_heat.
 
